@@ -1,7 +1,7 @@
 (* C05 - Variable-length tag contents have exactly the extent the tag size implies.
    g is a generic tag reference as the iterators produce them (C03 / C11): its header
    lies in memory, its stored size is `size >= 8`, its payload length is size - 8. *)
-Require Import Bytes Outcome Layout Common TagType Mbi MbiTags Header HeaderTags WalkSpec CastFacts C05Proofs.
+Require Import Bytes Outcome Layout Common TagType Mbi MbiTags Header HeaderTags WalkSpec TagEq CastFacts C05Proofs TagEqProofs.
 
 (* fixed part and element size of every variable-length kind of the boot information:
    (type number, fixed part, element size) *)
@@ -52,3 +52,22 @@ Theorem C05_requests_reject : forall p m g,
   hcast_kind p HkInfoReq m g = Panic.
 Proof. exact c05_requests_reject. Qed.
 Print Assumptions C05_requests_reject.
+
+(* `==` between two typed tags (the PartialEq impls, Model/TagEq.v) depends only on the bytes below the unpadded
+   extent - fixed part plus the elements the size implies: alignment padding and the following tag never take part;
+   and two equal tags have the same element count and the same variable part *)
+Theorem C05_eq_extent : forall k m1 t1 m2 t2,
+  t_meta t1 = t_meta t2 ->
+  (forall o w, o + w <= tag_extent k t1 ->
+               slice (m_bytes m1) (t_off t1 + o) w = slice (m_bytes m2) (t_off t2 + o) w) ->
+  (match sd_tail (kind_struct k), t_meta t1 with Some _, None => False | _, _ => True end) ->
+  tag_eqb k m1 t1 m2 t2 = true.
+Proof. exact tag_eqb_extent. Qed.
+Print Assumptions C05_eq_extent.
+
+Theorem C05_eq_tail : forall k m1 t1 m2 t2 es ea n1,
+  sd_tail (kind_struct k) = Some (es, ea) -> t_meta t1 = Some n1 -> tag_eqb k m1 t1 m2 t2 = true ->
+  t_meta t2 = Some n1 /\
+  slice (m_bytes m1) (tail_off k t1) (n1 * es) = slice (m_bytes m2) (tail_off k t2) (n1 * es).
+Proof. exact tag_eqb_tail. Qed.
+Print Assumptions C05_eq_tail.
